@@ -157,10 +157,60 @@ func (x *Exec) unknownCall(key string, args []*Val, st *State, sig *types.Signat
 	if x.spec > 0 {
 		panic(unsupported("call of %s in specification code", key))
 	}
+	if keys, ok := x.argReachKeys(sig); ok {
+		// Everything the callee is handed is a scalar or a slice / array / pointer of scalars: code
+		// outside the module can write only what these reach, not the module's own state.
+		x.warn("unmodelled call %s: result arbitrary, scalar memory reachable from its arguments havocked", key)
+		x.havocKeys(st, keys)
+		return x.freshResults(st, sig, key)
+	}
 	x.warn("unmodelled call %s: result arbitrary, whole heap havocked", key)
 	x.escapeArgs(st, args)
 	x.havocAll(st)
 	return x.freshResults(st, sig, key)
+}
+
+// argReachKeys: for a function outside the module with no contract, model or body, the heap
+// components it can write when every parameter (and the receiver) is a scalar or a slice, array
+// or pointer of scalars. ok is false when a parameter could carry a reference to anything else
+// (interfaces, functions, structs with pointers, maps, channels): then everything is havocked.
+func (x *Exec) argReachKeys(sig *types.Signature) (keys []string, ok bool) {
+	var ts []types.Type
+	if r := sig.Recv(); r != nil {
+		ts = append(ts, r.Type())
+	}
+	for i := 0; i < sig.Params().Len(); i++ {
+		ts = append(ts, sig.Params().At(i).Type())
+	}
+	scalar := func(t types.Type) bool {
+		b, isB := t.Underlying().(*types.Basic)
+		return isB && b.Kind() != types.UnsafePointer && b.Kind() != types.Invalid
+	}
+	for _, t := range ts {
+		switch u := t.Underlying().(type) {
+		case *types.Basic:
+			if !scalar(t) {
+				return nil, false
+			}
+		case *types.Slice:
+			if !scalar(u.Elem()) {
+				return nil, false
+			}
+			keys = append(keys, x.keysUnder("E", u.Elem(), nil)...)
+		case *types.Array:
+			if !scalar(u.Elem()) {
+				return nil, false
+			}
+		case *types.Pointer:
+			if !scalar(u.Elem()) {
+				return nil, false
+			}
+			keys = append(keys, x.keysUnder("H", u.Elem(), nil)...)
+		default:
+			return nil, false
+		}
+	}
+	return keys, true
 }
 
 func (x *Exec) escapeArgs(st *State, args []*Val) {
